@@ -2,6 +2,7 @@ package props
 
 import (
 	"bytes"
+	"context"
 	"fmt"
 	"runtime/debug"
 	"sort"
@@ -301,6 +302,40 @@ func runC02(c c02Case) kit.Result {
 					return err
 				}
 			}
+			// the members of a place (its link set of people), served through the store's related-entities cursor in the
+			// direction the scanner asks for
+			for _, pl := range c.Data.Places {
+				if !pl.People.Present || len(pl.People.Elems) == 0 || q.Via != "" {
+					continue
+				}
+				member, ok := map[string]bool{}, true
+				for _, id := range pl.People.Elems {
+					if c.Data.PersonByID(id) == nil {
+						ok = false
+					}
+					member[id] = true
+				}
+				if !ok {
+					continue
+				}
+				var inPlace []string
+				for _, id := range matches {
+					if member[id] {
+						inPlace = append(inPlace, id)
+					}
+				}
+				wantPl := kit.RefPage(kit.RefOrder(c.Data, "people", inPlace, q.Sort), q.Page)
+				pqr, _ := ast.Parse(store, text)
+				placeID := pl.ID
+				idsR, countR, err := store.QueryWithCursorC(tx, func(tx *bbolt.Tx, forward bool) ast.SetCursor {
+					return schema.Places.GetRelatedEntitiesCursor(tx, placeID, "people", forward)
+				}, pqr)
+				if err != nil || fmt.Sprint(idsR) != fmt.Sprint(wantPl) || int(countR) != len(inPlace) {
+					return fmt.Errorf("query: %s over the people of place %s (GetRelatedEntitiesCursor as cursor provider) -> %v count %d (err %v)\n  reference -> %v count %d", text, placeID, idsR, countR, err, wantPl, len(inPlace))
+				}
+				res.Classes = append(res.Classes, "provider:related-entities-cursor")
+				break
+			}
 			// bucket cursor provider
 			pq4, _ := ast.Parse(store, text)
 			ids4, count4, err := store.QueryWithCursorC(tx, func(tx *bbolt.Tx, forward bool) ast.SetCursor {
@@ -363,9 +398,61 @@ func runC02(c c02Case) kit.Result {
 		res.Err = c02FuncSymbols(c, schema, db.DB, &res)
 	}
 	if res.Err == nil {
+		res.Err = c02DeleteWhere(c, schema, db.DB, &res)
+	}
+	if res.Err == nil {
 		res.Err = c02ResultsOutliveTx(db.DB, held)
 	}
 	return res
+}
+
+// c02DeleteWhere: a bulk delete by query removes exactly the page the same query selects (sort, skip and limit
+// included) - the first sorted and limited query of the case is used.
+func c02DeleteWhere(c c02Case, schema *kit.ScanSchema, db *bbolt.DB, res *kit.Result) error {
+	for qi := range c.Queries {
+		q := &c.Queries[qi]
+		if q.Via != "" || len(q.Sort) == 0 || q.Page.Limit == nil || *q.Page.Limit <= 0 || q.Page.LimitNone {
+			continue
+		}
+		matches := idsOf(c.Data, "people")
+		if q.Pred != nil {
+			must, may := kit.RefMatch(c.Data, "people", q.Pred)
+			if len(may) > 0 {
+				continue
+			}
+			matches = must
+		}
+		page := kit.RefPage(kit.RefOrder(c.Data, "people", matches, q.Sort), q.Page)
+		gone := map[string]bool{}
+		for _, id := range page {
+			gone[id] = true
+		}
+		var want []string
+		for _, id := range idsOf(c.Data, "people") {
+			if !gone[id] {
+				want = append(want, id)
+			}
+		}
+		text := q.Render()
+		var left []string
+		err := db.Update(func(tx *bbolt.Tx) error {
+			if err := schema.People.DeleteWhere(boltz.NewTxMutateContext(context.Background(), tx), text); err != nil {
+				return err
+			}
+			var err error
+			left, _, err = schema.People.QueryIds(tx, "true limit none")
+			return err
+		})
+		if err != nil {
+			return fmt.Errorf("DeleteWhere(%s): %v", text, err)
+		}
+		if fmt.Sprint(left) != fmt.Sprint(want) && !(len(left) == 0 && len(want) == 0) {
+			return fmt.Errorf("DeleteWhere(%s): the query selects the page %v, after the bulk delete the store holds %v, expected %v", text, page, left, want)
+		}
+		res.Classes = append(res.Classes, "delete-where-with-sort-and-limit")
+		return nil
+	}
+	return nil
 }
 
 type c02Held struct {
